@@ -117,25 +117,25 @@ def run(ck, m):
                 ck.ob("R2", fn, fn.name in invalidated,
                       f"`{q}` memoizes a value derived from a terminal query ({' -> '.join(path)}) but enable_queries() does not "
                       f"invalidate it: a result obtained while queries were disabled is kept", stmt=f"memo @cached {rel}::{q}")
-        # hand-rolled memo: `if X is None:` guarding a store to X, X an attribute or global
-        for n in body_walk(fn):
-            if isinstance(n, ast.If) and isinstance(n.test, ast.Compare) and len(n.test.ops) == 1 and isinstance(n.test.ops[0], ast.Is) \
-                    and isinstance(n.test.comparators[0], ast.Constant) and n.test.comparators[0].value is None:
-                cell = norm(n.test.left)
-                if not isinstance(n.test.left, ast.Attribute):
-                    continue
-                stores = [st for st_ in n.body for t, st in stores_in(st_) if norm(t) == cell]
-                if not stores:
-                    continue
-                path = cg.reaches(fn, "query_terminal")
-                if not path:
-                    continue
-                n_memo += 1
-                attr = n.test.left.attr
-                reset = any(isinstance(t, ast.Attribute) and t.attr == attr for t, _ in stores_in(ast.Module(body=enable.body, type_ignores=[])))
-                ck.ob("R2", n, reset,
-                      f"`{cell}` memoizes a verdict derived from a terminal query ({' -> '.join(path)}) and enable_queries() does not "
-                      f"reset it: a verdict computed while queries were disabled is permanent", stmt=f"memo {rel}::{q}: {cell}")
+        # hand-rolled memo: a store to an attribute cell X that only runs while `X is None` (enclosing `if X is None:` or a guard clause
+        # `if X is not None: return X`)
+        seen_cells = set()
+        for t, st in stores_in(ast.Module(body=fn.body, type_ignores=[])):
+            if not isinstance(t, ast.Attribute):
+                continue
+            cell = norm(t)
+            if cell in seen_cells or f"{cell} is None" not in conds(st):
+                continue
+            seen_cells.add(cell)
+            path = cg.reaches(fn, "query_terminal")
+            if not path:
+                continue
+            n_memo += 1
+            attr = t.attr
+            reset = any(isinstance(t2, ast.Attribute) and t2.attr == attr for t2, _ in stores_in(ast.Module(body=enable.body, type_ignores=[])))
+            ck.ob("R2", st, reset,
+                  f"`{cell}` memoizes a verdict derived from a terminal query ({' -> '.join(path)}) and enable_queries() does not "
+                  f"reset it: a verdict computed while queries were disabled is permanent", stmt=f"memo {rel}::{q}: {cell}")
     ck.expect(n_memo >= 5, f"expected >= 5 query-derived memos (2 decorated + 3 hand-rolled), found {n_memo}")
 
     # ---- R3 -----------------------------------------------------------------------------
